@@ -1483,8 +1483,10 @@ def gen_elgamal(item, deep):
         except Exception:      # noqa: BLE001
             pass
         if t1.outs:
-            last = bytes(len(t1.outs[-1])) if item["tape"] == "last-zeros" else b"\xff" * len(t1.outs[-1])
-            tape = ReplayTape("gen-eg/%s/2" % item["cid"], t1.outs[:-1] + [last])
+            # the last integer drawn may be read in two requests (Integer.random: one octet for the top bits, then the rest): both are replaced
+            fill = (lambda b: bytes(len(b))) if item["tape"] == "last-zeros" else (lambda b: b"\xff" * len(b))
+            k = 2 if len(t1.outs) >= 2 and len(t1.outs[-2]) == 1 else 1
+            tape = ReplayTape("gen-eg/%s/2" % item["cid"], t1.outs[:-k] + [fill(b) for b in t1.outs[-k:]])
     key, exc = attempt(lambda: ElGamal.generate(bits, tape), seconds=900)
     if key is None:
         rec, kw = NOKEY_EG, eg_w(0, 0, 0, 0, False, False)
